@@ -729,6 +729,30 @@ def verifyM (P : VerifyParts) (keep : List (Bytes × Bytes)) (vid sig ser : Byte
       | .error e => if e = .memoerError then .error .memoerVerifyError else .error e
       | .ok rawsig => if P.check key rawsig ser then .ok () else .error .memoerVerifyError
 
+/-- `.keep[vid] = Keyage(qvk, …)` (`some qvk`) or `del .keep[vid]` (`none`): the application rotates / revokes a signer's key between service passes -/
+def setKeep (keep : List (Bytes × Bytes)) (vid : Bytes) (qvk : Option Bytes) : List (Bytes × Bytes) :=
+  match qvk with
+  | some q => (vid, q) :: keep.filter (fun x => x.1 != vid)
+  | none => keep.filter (fun x => x.1 != vid)
+
+/-- a receive history with key management in between: a batch of datagrams followed by `serviceAllRx()`, or an update of the keep.
+`verify` is `verifyM P` over the keep CURRENT at that step — the model holds no other key state -/
+inductive RStep
+  | batch (b : List (Bytes × Nat))
+  | rekey (vid : Bytes) (qvk : Option Bytes)
+
+def runKeyed (authic : Bool) (P : VerifyParts) :
+    List RStep → List (Bytes × Bytes) → List Entry → List (Bytes × Nat) → Except Exn (List Entry × List (Bytes × Nat) × List (List Memo))
+  | [], _, es, q => .ok (es, q, [])
+  | .rekey vid qvk :: rest, keep, es, q => runKeyed authic P rest (setKeep keep vid qvk) es q
+  | .batch b :: rest, keep, es, q =>
+    match serviceAllRx authic (verifyM P keep) es (q ++ b) with
+    | .error e => .error e
+    | .ok o =>
+      match runKeyed authic P rest keep o.entries o.queue with
+      | .ok (es', q', ds) => .ok (es', q', o.delivered :: ds)
+      | .error e => .error e
+
 /-! ### the datagram transports under the Memoer: `udping.Peer.send`, `uxding.Peer.send` -/
 
 /-- what the socket's `sendto(data, dst)` does: returns a byte count or raises `OSError(errno)` -/
